@@ -63,6 +63,7 @@ type Case struct {
 	SeqLen  int
 	Salt    int
 	Fastq   bool
+	Genome  int // > 0: the input is three FASTA records, the middle one of this many nucleotides
 	Configs []Config
 }
 
@@ -188,6 +189,19 @@ func writeInputs(c Case, dir string) ([]string, []string, int) {
 		return []string{"--forward", fwdPrimer, "--reverse", revPrimer, ip}, nil, n
 	}
 	var b strings.Builder
+	if c.Genome > 0 {
+		// a few records, one of them a whole chromosome: single sequences larger than every buffer and threshold
+		for i := 0; i < 3; i++ {
+			l := 200 + int(x.next()%300)
+			if i == 1 {
+				l = c.Genome
+			}
+			b.WriteString(fa(fmt.Sprintf("g%d", i), fmt.Sprintf(`{"k":%d}`, i), randSeq(&x, l, "acgt")))
+		}
+		ip := filepath.Join(dir, "genome.fasta")
+		os.WriteFile(ip, []byte(b.String()), 0o644)
+		return []string{ip}, nil, 3
+	}
 	for i := 0; i < n; i++ {
 		s := randSeq(&x, c.SeqLen+int(x.next()%50), "acgtACGT")
 		extra := ""
@@ -399,6 +413,12 @@ func TestPropParallelism(t *testing.T) {
 				// several MiB of templates (several 1 MiB reading chunks), amplicons only at both ends
 				c.N, c.SeqLen = rapid.IntRange(3000, 5000).Draw(rt, "pcr_n"), rapid.IntRange(900, 1200).Draw(rt, "pcr_len")
 			}
+		} else if (c.Tool == "obicomplement" || c.Tool == "obiconvert" || c.Tool == "obigrep" || c.Tool == "obicount") && rapid.IntRange(0, 3).Draw(rt, "genome") == 0 {
+			c.Genome = rapid.IntRange(1050000, 3300000).Draw(rt, "genome_len")
+			c.Fastq = false
+			if len(c.Opts) > 0 && c.Opts[0] == "--fastq-output" {
+				c.Opts = []string{}
+			}
 		} else if c.Tool == "obiannotate" && rapid.IntRange(0, 2).Draw(rt, "annotate_large") == 0 {
 			// the edit workers run as one closure shared by all worker goroutines: give them many batches at once
 			c.N = rapid.IntRange(15000, 25000).Draw(rt, "annotate_n")
@@ -436,6 +456,9 @@ func TestPropParallelism(t *testing.T) {
 		}
 		if c.N >= 2000 {
 			cl = append(cl, "n>=2000_many_batches_or_chunks")
+		}
+		if c.Genome > 0 {
+			cl = append(cl, "one_record_longer_than_1MiB")
 		}
 		_ = nontrivial
 		for i, cfg := range c.Configs {
